@@ -1157,6 +1157,27 @@ def overlay_left_while_a_generator_is_suspended_still_receives_its_events():
     return ys != seen_in_block
 
 
+def total_probe_with_a_variable_bound_twice_raises_out_of_the_call():
+    """C01/C07: a probe without focus (a total probe, not raw) on a variable that the call binds twice: when the call ends the record is
+    built with Capture.value, which raises ValueError('Multiple values stored ...') -- out of the user's call, whose result it replaces.
+    The property demands the same return value as the untouched function (C01) and a record with all the values (C07)."""
+    def f5():
+        for i in range(2):
+            x = i
+        return 0
+
+    got = []
+    try:
+        with probing("f5(x)", env={"f5": f5}) as p:
+            p.subscribe(got.append)
+            r = f5()
+    except ValueError as e:
+        print("the probed call raised:", e)
+        return True
+    print("returned", r, "records", got)
+    return r != 0
+
+
 # case -> properties (the scenario corpus of DESIGN 2.6: every case is replayed natively by the quick check of its properties)
 CASES = {
     "tuple_unpack_generator": ["C01"], "tuple_unpack_dict": ["C01"], "starred_target": ["C01"], "subscript_index_twice": ["C01"],
@@ -1174,7 +1195,7 @@ CASES = {
     "completion_error_leaves_probe_active": ["C17", "C05"], "overlay_on_tooled_function_keeps_its_events": ["C05"], "deactivation_inside_a_call_is_undone_at_its_exit": ["C05"],
     "probe_activated_inside_a_call_is_dropped": ["C05"],
     "same_name_constrained_in_two_frames": ["C12"], "bound_method_subselector_drops_record": ["C07"],
-    "private_names_in_method": ["C01"], "probe_activated_while_a_generator_is_suspended_misses_its_later_events": ["C05"],
+    "private_names_in_method": ["C01"], "total_probe_with_a_variable_bound_twice_raises_out_of_the_call": ["C01", "C07"], "probe_activated_while_a_generator_is_suspended_misses_its_later_events": ["C05"],
     "overlay_left_while_a_generator_is_suspended_still_receives_its_events": ["C05"], "generator_shell_is_transparent": ["C09", "C05", "C01", "C06", "C02", "C07", "C03", "C17"], "probe_silenced_when_an_earlier_generator_finishes": ["C02", "C06"],
     "suspended_generator_in_a_local_outlives_its_frame": ["C09"], "slice_bounds_evaluated_once": ["C01", "C02"], "match_statement_under_tooling": ["C01", "C10", "C02"], "provenance_follows_python_scoping": ["C10"], "augmented_attribute_store_is_a_binding": ["C04", "C02"],
     "stale_generator_answer_is_not_remembered": ["C05", "C07", "C02", "C09"],
